@@ -64,7 +64,12 @@ fn run() -> Result<ExitCode> {
     // lines up front, the way clap does in all other cases.
     // (the program name, argv[0], is not an argument and may be any path)
     if std::env::args_os().skip(1).any(|arg| arg.to_str().is_none()) {
-        eprintln!("error: Invalid UTF-8 was detected in one or more arguments");
+        // (`eprintln!` would panic if STDERR cannot be written)
+        writeln!(
+            io::stderr(),
+            "error: Invalid UTF-8 was detected in one or more arguments"
+        )
+        .ok();
         return Ok(2);
     }
 
